@@ -98,7 +98,10 @@ def logic_arm(cp, m):
             if v == m:
                 return body
         else:
-            raise ModelError(f'LogicSim.c_prop: unrecognised logic test {norm(test)}')
+            from kvstatic.core import DefiniteShapeError
+            raise DefiniteShapeError('branch', 'logic_sim', 'LogicSim.c_prop', norm(test),
+                                     f'LogicSim.c_prop: the logic selection `{norm(test)[:120]}` is not `self.m == <2|4|8>`: a dispatch chain written for one logic '
+                                     f'would be run for another (or only under extra conditions)', getattr(test, 'lineno', 0))
     rest = [x for x in (2, 4, 8) if x not in seen]
     if rest == [m]:
         return orelse
@@ -439,6 +442,12 @@ def translation_evaluated(rep, simmod, init, rows):
     return True
 
 
+def plumbing_rules(rep, repo):
+    """C01.plumbing (assign / capture / transfer / cycle of LogicSim) for checks that include it through depends()."""
+    simmod, init = simops.simops_init(repo)
+    check_plumbing(rep, repo, repo.mod('logic_sim'), simmod, init)
+
+
 def wiring_rules(rep, repo):
     """C01.wiring for checks that include it through depends(): evaluated translation, structural form as fall-back."""
     rows, _kp = simtab.kind_prefixes(repo)
@@ -623,6 +632,14 @@ def check_plumbing(rep, repo, lmod, simmod, init):
     rep.ob('C01.plumbing', 'c_to_s replicates plane 0 for 2-valued results', ok)
     if not ok:
         rep.violate('C01.plumbing', lmod, c2s, body[-1], 'for mdim == 1 the captured plane must be replicated into plane 1 (so 1 reads as ONE=0b11, not UNKNOWN)', node=c2s)
+    # what is captured is what was computed: apart from the copy (and the 2-valued plane replication) nothing in c_to_s writes to s
+    extra = [st for st in ast.walk(c2s) if isinstance(st, (ast.Assign, ast.AugAssign)) and any(
+        isinstance(n, (ast.Subscript, ast.Attribute)) and isinstance(getattr(n, 'ctx', None), ast.Store) and 'self.s' in norm(n) for n in ast.walk(st))
+        and norm(st).replace(' ', '') not in (want1, 'self.s[1,self.poppo_s_locs,1:2]=self.c[self.poppo_c_locs]')]
+    rep.ob('C01.plumbing', 'c_to_s stores nothing but the captured values into s', not extra)
+    for st in extra:
+        rep.violate('C01.plumbing', lmod, c2s, st, f'LogicSim.c_to_s: `{norm(st)[:80]}` changes captured values after the copy: s[1] would no longer hold what the circuit computed '
+                    f'(e.g. a pulse reported as a constant)', node=st)
     p2p = lmod.func('LogicSim.s_ppo_to_ppi')
     want3 = 'self.s[0,self.ppio_s_locs]=self.s[1,self.ppio_s_locs]'
     iff = [st for st in body_no_doc(p2p) if isinstance(st, ast.If)]
